@@ -59,6 +59,8 @@ template <class Q, class T, int DIM, class MK, class DIRF> void quantity(const c
   for (int t = 0; t < n; t++) { T v[3] = {0, 0, 0}; int ex = (int)(g() % (2 * emax + 1)) - emax;
     for (int i = 0; i < DIM; i++) { T m = (T)(1.0L + (long double)(g() >> 11) / (long double)(1ULL << 53)); v[i] = std::ldexp(m, ex - (int)(g() % 3)) * ((g() & 1) ? 1 : -1); }
     if (t == 0) { v[0] = 3; v[1] = -4; if (DIM == 3) v[2] = 12; }
+    if (t % 9 == 2) { int dom = (int)(g() % DIM); const int lo = std::numeric_limits<T>::min_exponent + 8;   // one dominant component, the others anywhere below it (only the squared length must stay in range)
+      for (int i = 0; i < DIM; i++) if (i != dom) { T m = (T)(1.0L + (long double)(g() >> 11) / (long double)(1ULL << 53)); int top = ex - 3; v[i] = std::ldexp(m, lo + (int)(g() % (unsigned)(top - lo + 1))) * ((g() & 1) ? 1 : -1); } }
     Q q = mk(v); T mag = q.Magnitude().Value(); Qd l2 = 0; for (int i = 0; i < DIM; i++) l2 += (Qd)v[i] * v[i]; Qd w = sqrtq(l2);
     double u = (double)(fabsq((Qd)mag - w) / w / (Qd)eps<T>()); if (u > mag_ulps) mag_ulps = u;
     if (!(q.x().Value() == v[0]) || !(q.y().Value() == v[1])) slot_bad++;
